@@ -4,6 +4,11 @@ mod c06;
 mod c10;
 mod c11;
 mod c12;
+mod c15;
+mod sqlchecks;
+mod sqlgen;
+mod sqlite;
+mod world;
 mod common;
 mod grids;
 mod probe;
@@ -55,9 +60,13 @@ fn main() {
         .unwrap();
     let report = match id.as_str() {
         "C06" => c06::run(&ctx),
+        "C07" => sqlchecks::run_sql_check(&ctx, sqlchecks::Which::C07),
+        "C08" => sqlchecks::run_sql_check(&ctx, sqlchecks::Which::C08),
+        "C14" => sqlchecks::run_sql_check(&ctx, sqlchecks::Which::C14),
         "C10" => c10::run(&ctx),
         "C11" => c11::run(&ctx),
         "C12" => c12::run(&ctx),
+        "C15" => c15::run(&ctx),
         "probe" => {
             probe::run();
             std::process::exit(0)
